@@ -3,6 +3,8 @@
 //! event per step for trace validation by TLC.
 mod abs;
 mod c10;
+mod c13;
+mod inv;
 
 use std::io::{BufRead, BufReader, Write};
 
@@ -61,6 +63,7 @@ fn main() {
     let fam = args[1].as_str();
     match fam {
         "c10" => c10::run(&args[2], &args[3]),
+        "c13" => c13::run(&args[2], &args[3]),
         _ => {
             eprintln!("unknown family {}", fam);
             std::process::exit(2);
